@@ -106,6 +106,32 @@ def _case(draw, tier):
         mesh = draw(meshgen.any_mesh(max_pts=40 if big else 20))
         if kind == "subdiv":
             mesh = meshgen.subdivide_edges(draw, mesh)
+    if draw(st.integers(0, 7)) == 0:
+        # strip of k quads cut out of a structured mesh, keeping the full mesh's node numbering (row stride = nlon);
+        # the row stride is drawn near the number of entries of the strip's own table as well as freely
+        k = draw(st.integers(1, 12))
+        nlon = draw(st.integers(k + 2, 64) | st.integers(max(k + 2, 4 * k - 1), 4 * k + 5))
+        r0, c0 = draw(st.integers(0, 2)), draw(st.integers(0, max(0, nlon - k - 1)))
+        nrow = r0 + 2
+        nodes = [[-180.0 + 360.0 * (c + 0.25) / nlon, -40.0 + 20.0 * r] for r in range(nrow) for c in range(nlon)]
+        faces = [[r0 * nlon + c, r0 * nlon + c + 1, (r0 + 1) * nlon + c + 1, (r0 + 1) * nlon + c] for c in range(c0, c0 + k)]
+        mesh = {"nodes": nodes, "faces": faces, "family": "strip-extract-orphan-nodes"}
+    gap_max = draw(st.sampled_from([1, 1, 1, 2, 9, 40])) if "orphan" not in mesh.get("family", "") else 1
+    if gap_max > 1:
+        # a table that names only some of the nodes of a longer node list (regional extract keeping the
+        # numbering of the full mesh): node i moves to the running sum of drawn gaps, the nodes in between are unused
+        n_old = len(mesh["nodes"])
+        gaps = draw(st.lists(st.integers(1, gap_max), min_size=n_old, max_size=n_old))
+        new_idx, acc = [], draw(st.integers(0, gap_max)) - 1
+        for gp in gaps:
+            acc += gp
+            new_idx.append(acc)
+        n_new = new_idx[-1] + 1 + draw(st.integers(0, 3))
+        nodes = [[0.0, -89.9 + 1e-4 * (k % 1000)] for k in range(n_new)]
+        for i, p_ in enumerate(mesh["nodes"]):
+            nodes[new_idx[i]] = p_
+        mesh = dict(mesh, nodes=nodes, faces=[[new_idx[i] for i in f] for f in mesh["faces"]])
+        mesh["family"] = mesh.get("family", "?") + "-orphan-nodes"
     return {
         "mesh": mesh,
         "extra_width": draw(st.sampled_from([0, 0, 0, 1, 2])),
@@ -115,6 +141,7 @@ def _case(draw, tier):
         # edges between two of this grid's first accesses
         "companion_after": draw(st.sampled_from([None, None, 0, 1, 2, 3])),
         "companion_rot": draw(st.integers(1, 7)),
+        "subset": draw(st.sampled_from([None, None, None, True])) and {"faces": draw(st.lists(st.integers(0, 200), min_size=1, max_size=12)), "derive_first": draw(st.booleans())},
     }
 
 
@@ -149,6 +176,8 @@ def classify(case):
     labs.append("layout:" + case.get("layout", "C"))
     if case.get("companion_after") is not None:
         labs.append("companion-grid-interleaved")
+    if case.get("subset"):
+        labs.append("judged-on-an-isel-subset")
     nontrivial = len(set(sizes)) > 1 or npad > 1 or multi or list(case["access"]) != [0, 1, 2, 3, 4]
     return labs, nontrivial
 
@@ -170,6 +199,23 @@ def run_case(case, ctx):
     else:
         arg = conn.copy()
     g = build.ux().Grid.from_topology(nodes[:, 0].copy(), nodes[:, 1].copy(), arg, fill_value=FILL)
+    site = "from_topology"
+    sub = case.get("subset")
+    if sub and len(faces) >= 2:
+        # "every grid" includes grids produced by slicing: a drawn face subset of the grid (whose edges were or were
+        # not derived before) is judged by the same oracles, its own face-node table being the definition
+        if sub["derive_first"]:
+            _ = g.edge_node_connectivity, g.face_edge_connectivity
+        idx = sorted({i % len(faces) for i in sub["faces"]})
+        g = g.isel(n_face=idx)
+        conn2 = np.asarray(g.face_node_connectivity.values).reshape(len(idx), -1)
+        faces = [[int(j) for j in row if j != FILL] for row in conn2]
+        mesh = {"nodes": [[float(a), float(b)] for a, b in zip(g.node_lon.values, g.node_lat.values)], "faces": faces, "family": mesh.get("family", "") + "-subset"}
+        nodes = np.asarray(mesh["nodes"], float)
+        width = conn2.shape[1]
+        conn = conn2
+        case = dict(case, companion_after=None, extra_width=0)
+        site = "isel-subset:" + ("edges-derived-before" if sub["derive_first"] else "pristine")
     got = {}
     comp_after = case.get("companion_after")
     for pos, k in enumerate(case["access"]):
@@ -182,7 +228,6 @@ def run_case(case, ctx):
             g2 = build.ux().Grid.from_topology(nodes[:, 0].copy(), nodes[:, 1].copy(), build.padded_faces(m2, width=width), fill_value=FILL)
             _ = g2.n_edge, g2.n_nodes_per_face.values
     fails = []
-    site = "from_topology"
 
     def bad(oracle, kind, detail):
         fails.append(Failure(oracle, site, kind, detail))
@@ -256,6 +301,7 @@ def run_case(case, ctx):
     # ---- euler for closed sphere tilings
     if mesh.get("family", "") != "enumerated" and refmodel.is_closed(faces):
         ctx.ev("euler")
-        if int(g.n_node) - int(got["n_edge"]) + int(g.n_face) != 2:
-            bad("euler", "wrong", f"V-E+F = {int(g.n_node) - int(got['n_edge']) + int(g.n_face)}")
+        n_used = len({i for f in faces for i in f})  # nodes the faces actually use (the node list may hold more)
+        if n_used - int(got["n_edge"]) + int(g.n_face) != 2:
+            bad("euler", "wrong", f"V-E+F = {n_used - int(got['n_edge']) + int(g.n_face)}")
     return fails
